@@ -15,6 +15,11 @@
  *             e,de        shift the wall clock (log_epoch_secs) by signed de
  *             n,rule,ts,rnd,dalgo   mod_auth_append_nonce() with fixed random -> nonce hex
  * Output: one token per op (q: "<result>|<cache dump>").
+ * Stateless probes of the building blocks:
+ *   parse <hex>      mod_auth_digest_parse_authorization() -> the 11 parameters
+ *   b64 <hex>        li_base64_dec(BASE64_STANDARD)        -> decoded hex | 0
+ *   eqct <a> <b>     ck_memeq_const_time(), ck_memeq_const_time_fixed_len()
+ *   algo <hex>       mod_auth_algorithm_parse()            -> "dalgo dlen" | 0
  */
 #include "first.h"
 #include "harness_common.h"
@@ -195,6 +200,48 @@ int main(void) {
     http_auth_cache *ac = NULL;
 
     while (next_line()) {
+        if (ntok == 2 && 0 == strcmp(tok[0], "parse")) {
+            /* mod_auth_digest_parse_authorization() on the text after "Digest " */
+            static const char * const pn[] = { "username", "realm", "nonce", "uri", "algorithm", "qop",
+                                               "cnonce", "nc", "response", "username*", "userhash" };
+            size_t n; unsigned char *in = ltv_unhex(tok[1], &n);
+            http_auth_digest_params_t dp;
+            memset(&dp, 0, sizeof(dp) - sizeof(dp.rdigest));
+            mod_auth_digest_parse_authorization(&dp, (char *)in);
+            for (int i = 0; i < http_auth_digest_params_sz; ++i) {
+                printf("%s%s=", i ? " " : "", pn[i]);
+                if (dp.ptr[i]) ltv_puthex(dp.ptr[i], dp.len[i]); else fputc('~', stdout);
+            }
+            fputc('\n', stdout);
+            free(in);
+            continue;
+        }
+        if (ntok == 2 && 0 == strcmp(tok[0], "b64")) {
+            /* li_base64_dec(BASE64_STANDARD) as mod_auth_check_basic() calls it */
+            size_t n; unsigned char *in = ltv_unhex(tok[1], &n);
+            unsigned char *out = malloc(n + 4);
+            size_t olen = li_base64_dec(out, n + 4, (char *)in, n, BASE64_STANDARD);
+            if (0 == olen) fputs("0", stdout); else ltv_puthex(out, olen);
+            fputc('\n', stdout);
+            free(out); free(in);
+            continue;
+        }
+        if (ntok == 3 && 0 == strcmp(tok[0], "eqct")) {
+            size_t na, nb; unsigned char *a = ltv_unhex(tok[1], &na); unsigned char *b = ltv_unhex(tok[2], &nb);
+            printf("%d", ck_memeq_const_time(a, na, b, nb));
+            if (na == nb) printf(" %d", ck_memeq_const_time_fixed_len(a, b, na));
+            fputc('\n', stdout);
+            free(a); free(b);
+            continue;
+        }
+        if (ntok == 2 && 0 == strcmp(tok[0], "algo")) {
+            size_t n; unsigned char *in = ltv_unhex(tok[1], &n);
+            http_auth_info_t ai; ai.dalgo = 0; ai.dlen = 0;
+            if (mod_auth_algorithm_parse(&ai, (char *)in, n)) printf("%d %u\n", ai.dalgo, ai.dlen);
+            else puts("0");
+            free(in);
+            continue;
+        }
         if (ntok < 9 || 0 != strcmp(tok[0], "run")) { puts("bad-op"); continue; }
         /* tear down previous scenario */
         if (auth_require) { array_free(auth_require); auth_require = NULL; }
@@ -341,10 +388,8 @@ int main(void) {
                     ++log_monotonic_secs; ++log_epoch_secs;
                     mod_auth_periodic(NULL, p);
                 }
-                int n = 0;
                 fputs("t[", stdout);
                 if (ac) dump_tree(ac->sptree, &(int){1});
-                (void)n;
                 fputc(']', stdout);
             }
             else if (f[0][0] == 'e' && nf == 2) {
@@ -353,7 +398,7 @@ int main(void) {
             }
             else if (f[0][0] == 'n' && nf == 5) {
                 int ri = atoi(f[1]);
-                if (ri < 0 || ri >= ltv_nreq) { fputs("bad-op", stdout); continue; }
+                if (ri < 0 || ri >= ltv_nreq || !ltv_req_ptr[ri]) { fputs("bad-op", stdout); continue; }
                 unsigned int rnd = (unsigned int)strtoul(f[3], NULL, 10);
                 buffer *b = buffer_init();
                 mod_auth_append_nonce(b, (unix_time64_t)strtoll(f[2], NULL, 10),
